@@ -125,6 +125,32 @@ func runAgent(in []int64) ([]int64, []int64) {
 			curPod[it.Pod.ID] = p
 			evMu.Unlock()
 			recovered(func() { sc.AddPodToCache(p) })
+		case itUnbound:
+			evMu.Lock()
+			old := curPod[it.Task]
+			nw := touchedPod(old, !it.Flag)
+			curPod[it.Task] = nw
+			evMu.Unlock()
+			recovered(func() { sc.UpdatePodInCache(old, nw) })
+		case itBound:
+			node := ""
+			for _, n := range sched.SortedIDs(sc.Nodes, func(n string) int64 { return sched.ParseID(n) }) {
+				ni := agentNodeInfo(sc, sched.NodeName(n))
+				for k, t := range ni.Tasks {
+					if node == "" && sched.ParseID(string(k)) == it.Task && t.Status == api.Binding {
+						node = sched.NodeName(n)
+					}
+				}
+			}
+			if node != "" {
+				evMu.Lock()
+				old := curPod[it.Task]
+				nw := touchedPod(old, true)
+				nw.Spec.NodeName = node
+				curPod[it.Task] = nw
+				evMu.Unlock()
+				recovered(func() { sc.UpdatePodInCache(old, nw) })
+			}
 		}
 		return nil
 	}
@@ -165,6 +191,8 @@ func runAgent(in []int64) ([]int64, []int64) {
 	for _, n := range nids {
 		ni := agentNodeInfo(sc, sched.NodeName(n))
 		got = append(got, sched.EncNode(ni, n)...)
+		// (the agent stream may bind one pod to several nodes through separate TaskInfos: every
+		// accepted call is a copy on its node, so what the nodes hold already is every reservation)
 		tids := sched.SortedIDs(ni.Tasks, func(u api.TaskID) int64 { return sched.ParseID(string(u)) })
 		held = append(held, n, int64(len(tids)))
 		held = append(held, tids...)
